@@ -593,7 +593,12 @@ func c01SpecKids(stream, v string, ms []string, kids int) []byte {
 		sb.WriteString("]")
 	}
 	for i, m := range ms {
-		if m != "" {
+		switch {
+		case m == "":
+		case m[0] == '#':
+			// the join field is present but not a string (join.Do: neither start nor continuation)
+			fmt.Fprintf(&sb, `,"m%d":%s`, i, m[1:])
+		default:
 			fmt.Fprintf(&sb, `,"m%d":%q`, i, m)
 		}
 	}
@@ -732,24 +737,28 @@ func genC01Case(rng *hx.Rng, allowDQ bool) *c01Gen {
 		}
 		m := ""
 		if joinAt >= 0 {
-			switch rng.Intn(5) {
+			switch rng.Intn(6) {
 			case 0:
 				m = "S" + strconv.Itoa(i)
 			case 1, 2:
 				m = "C" + strconv.Itoa(i)
 			case 3:
 				m = "x" + strconv.Itoa(i)
+			case 4:
+				m = "#" + strconv.Itoa(1000+i)
 			}
 		}
 		m1 := ""
 		if join2At >= 0 {
-			switch rng.Intn(5) {
+			switch rng.Intn(6) {
 			case 0:
 				m1 = "S" + strconv.Itoa(i)
 			case 1, 2:
 				m1 = "C" + strconv.Itoa(i)
 			case 3:
 				m1 = "x" + strconv.Itoa(i)
+			case 4:
+				m1 = "#" + strconv.Itoa(2000+i)
 			}
 		}
 		kids := 0
